@@ -121,6 +121,29 @@ func NewRig(para bool, plugins string) (*Rig, error) {
 	return r, nil
 }
 
+// GenesisDigest is the digest of what executing the genesis block on the empty database left in the
+// local data as far as it is readable back: the plugin flag records and the fee / statistic
+// records of height 0, together with the genesis state root.
+func (r *Rig) GenesisDigest() string {
+	keys := []string{string(types.StatisticFlag()), string(types.FlagKeyMVCC), string(types.FlagTxQuickIndex)}
+	vals, found, err := r.GetLocal(keys)
+	parts := [][]byte{[]byte(fmt.Sprintf("root=%x err=%v", r.tip.StateHash, err))}
+	for i := range keys {
+		if err == nil {
+			parts = append(parts, []byte(fmt.Sprintf("%s found=%v value=%x", keys[i], found[i], vals[i])))
+		}
+	}
+	for _, pfx := range []string{"TotalFeeKey:", "Statistic"} {
+		l, lerr := r.api.LocalList(&types.LocalDBList{Prefix: []byte(pfx), Direction: 1, Count: 0})
+		if lerr == nil && l != nil {
+			for _, v := range l.Values {
+				parts = append(parts, []byte(pfx), v)
+			}
+		}
+	}
+	return dig(parts...)
+}
+
 // Close stops the node and removes its data directory.
 func (r *Rig) Close() {
 	if r.mock != nil {
